@@ -289,7 +289,9 @@ impl<S: Read> Master<S> {
             let sorter = Sorter::from_str(sorter)?;
             // only the most significant key (the last to sort) may drop rows beyond skip + take
             let max_size = if index == 0 {
-                self.cli.take.map(|take| (self.cli.skip + take) as usize)
+                self.cli
+                    .take
+                    .map(|take| self.cli.skip.saturating_add(take) as usize)
             } else {
                 None
             };
